@@ -212,6 +212,18 @@ def run_case(case, ctx):
             params = str(params)
         else:
             params = [str(params), Path(params), str(params), None, None, str(params)][form]
+        if form == 0 and case['seed'][2] % 12 == 6:
+            # the parameter file lives in another folder and names the data folder itself (dir_path); the decoy raw
+            # files next to it must not be taken for the recording
+            conf = os.path.join(d0, 'config')
+            os.makedirs(conf)
+            with open(os.path.join(conf, 'params.py'), 'w') as f_:
+                f_.write(open(os.path.join(d, 'params.py')).read() + 'dir_path = %r\n' % str(d))
+            if spec.raw is not None and spec.raw_ext != '.npy':
+                for k_ in range(len(spec.raw_parts or [1])):
+                    with open(os.path.join(conf, 'raw_t%d%s' % (9 + k_, spec.raw_ext)), 'wb') as f_:
+                        f_.write(b'\x05' * (spec.raw.nbytes + 32))
+            params = os.path.join(conf, 'params.py')
         before = snapshot(d)
         if mon.fs:
             mon.fs.watch(d)
@@ -270,6 +282,13 @@ def run_case(case, ctx):
         for f in created:
             if f not in allowed:
                 ctx.violation('unexpected_file_created', case, 'loading created %s' % f, {'file': f})
+        for f in created:
+            # a created file is a file of its own: not another name (hard link) for a pre-existing one, whose bytes a
+            # later save of the new file would then rewrite
+            fp = os.path.join(d, f)
+            if os.path.isfile(fp) and not os.path.islink(fp) and os.stat(fp).st_nlink > 1:
+                ctx.violation('created_file_is_a_hard_link', case, 'loading created %s as a second name of an existing file (st_nlink=%d)' % (
+                    f, os.stat(fp).st_nlink), {'file': f})
         if 'spike_clusters.npy' in created:
             got = np.load(os.path.join(d, 'spike_clusters.npy')).squeeze()
             dd = same(got.astype(np.int64), spec.spike_templates.astype(np.int64), dtype=False)
